@@ -192,6 +192,20 @@ CLAIMED = {
         note=TB + " get_pool_executor/get_pool_results pinned by shape; OS scheduling and fork semantics modelled as permutation/assignment nondeterminism.",
         technique="Coq proof (permutation-invariance over regenerated pooled branches) + shape pin + real pooled runs with delays",
         design="§7 C11"),
+    "C06": dict(
+        text=("PARTIAL proof. Proved (Coq), on the REGENERATED optimize() schema, _init_agent, Task.validate_objective_weights and variable validators: "
+              "a call without configuration, with non-positive workers or an unknown mode ends in ValueError with zero optimization steps, for every optimizer and "
+              "instance history; the statements before the loop (entry checks, hooks, initial population) execute no optimization step however they end; a weight / "
+              "objective count mismatch makes every agent construction fail (so it surfaces while the initial population is built); negative or NaN weights, inverted or "
+              "equal bounds, mismatched bound lists and non-positive binary sizes are rejected at construction, and exactly those; on a valid call the framework's own "
+              "operations do not fail - agent construction from a well-shaped candidate succeeds for min and max, scalar and weighted multi-objective (the sign flip of a list of "
+              "objectives keeps its length), and with non-empty generations the run returns a complete result (K+1 generations, K rates, K <= max_cycles). NOT proved: that the interior "
+              "of the 84 numpy kernels raises no Python error on every valid task - no Gallina model expresses numpy's dynamic typing and broadcasting; that half is the keyed "
+              "failure census (testing): strict on continuous tasks (any failure not listed as a known finding is a violation), per (optimizer, encoding) pair against a committed "
+              "works-today baseline on integer-coded tasks."),
+        note=TB + " The census is a search, not a proof; failure keys are (optimizer, exception type, innermost pyvolutionary function); 9 known findings with deterministic replays.",
+        technique="Coq proof (rejection table + no-step-before-loop on the regenerated schema; regenerated validators; framework totality) + keyed failure census over all optimizers",
+        design="§7 C06"),
 }
 
 PENDING_REASON = "check not built yet in this round (work in progress, see DESIGN.md §11 build order); not claimed until its check exists"
